@@ -210,8 +210,11 @@ func cmdCheck(args []string) int {
 		ct := l.bound[fn]
 		if prop == "C02" {
 			// completeness of the whole circuit: every circuit function that has a COMPLETE-mode contract
-			if ct.Kind != "circuit" || ct.Flags["trusted"] || ct.Flags["interface"] {
+			if ct.Flags["trusted"] || ct.Flags["interface"] {
 				continue
+			}
+			if ct.Kind != "circuit" && !ct.HasProp("C02") {
+				continue // plain functions only when tagged (the hint functions: honest hint values are part of completeness)
 			}
 			if ct.Flags["sound-only"] {
 				soundOnly = append(soundOnly, key)
